@@ -14,6 +14,82 @@ DECIMALS = ["0.29", "0.1", "1.5", "2.75", "0.00001", "123.456", "0.57", "1.1", "
 INTFMTS = ["B", "H", "I", "Q", "i", "q"]
 
 
+# ---------------------------------------------------------------- decimals assigned from Python
+PYDECIMALS = DECIMALS + ["-1.3", "-2", "-0.00001", "-0.29", "-99999.99999", "-0.57", "-2.675", "-123.456", "0", "7", "-0.5", "0.5", "2.5", "-2.5", "1e-05", "41.50001"]
+
+
+def py_case(rng):
+    return {"kind": "py", "storage": rng.choice(["array", "array", "hash"]), "decimals": [rng.choice(PYDECIMALS) for _ in range(rng.randint(1, 5))],
+            "others": rng.randint(0, 2)}
+
+
+def py_run(case):
+    """x-format map variables of a loaded program are assigned from Python through the real descriptors; returns the
+    stored 64-bit integers (read from the map bytes) and the values read back through the descriptors"""
+    import struct
+    from ebpfcat.arraymap import ArrayMap
+    from ebpfcat.hashmap import HashMap
+    from ebpfcat.ebpf import EBPF
+    from ebpfcat.bpf import ProgType
+    from . import sim_kernel, sim_bpf
+    n = len(case["decimals"])
+    try:
+        if case["storage"] == "array":
+            amap = ArrayMap()
+            ns = {"amap": amap}
+            for k in range(case["others"]):
+                ns[f"o{k}"] = amap.globalVar("B")
+            for k in range(n):
+                ns[f"x{k}"] = amap.globalVar("x")
+            P = type("P", (EBPF,), ns)
+            with sim_kernel.installed():
+                e = P(ProgType.XDP, "GPL")
+                e.r0 = 2
+                e.exit()
+                e.loaded = True
+                for k, d in enumerate(case["decimals"]):
+                    setattr(e, f"x{k}", float(d))
+                data = bytes(e.__dict__["amap"][:])
+                stored = [struct.unpack_from("q", data, e.__dict__[f"x{k}"])[0] for k in range(n)]
+                back = [getattr(e, f"x{k}") for k in range(n)]
+        else:
+            sim = sim_bpf.BpfSim()
+            with sim_bpf.installed(sim):
+                hm = HashMap()
+                ns = {"hm": hm}
+                for k in range(n):
+                    ns[f"x{k}"] = hm.globalVar("x", default=0)
+                P = type("P", (EBPF,), ns)
+                e = P(ProgType.XDP, "GPL")
+                e.r0 = 2
+                e.exit()
+                e.load()
+                for k, d in enumerate(case["decimals"]):
+                    setattr(e, f"x{k}", float(d))
+                fd = list(sim.maps)[0]
+                cells = sim.maps[fd]["data"]
+                stored = [struct.unpack("q", cells[bytes([P.__dict__[f"x{k}"].count])][:8])[0] for k in range(n)]
+                back = [getattr(e, f"x{k}") for k in range(n)]
+    except Exception as ex:      # noqa
+        import traceback
+        return Err(5, f"assigning decimals from Python raised {type(ex).__name__}: {ex} {traceback.format_exc()[-300:]}")
+    return {"stored": stored, "back": back}
+
+
+def py_holds(case, o):
+    if isinstance(o, Err):
+        return f"{o.what}; {case['decimals']}"
+    for d, st, bk in zip(case["decimals"], o["stored"], o["back"]):
+        want = Fraction(d) * FB
+        if want.denominator != 1:
+            continue
+        if st != want:
+            return f"the decimal {d} assigned from Python to an x-format {case['storage']}-map variable is stored as {st}, its exact representation is {want}"
+        if abs(bk - float(d)) > 1e-12:
+            return f"the decimal {d} assigned from Python reads back as {bk!r}"
+    return True
+
+
 class C02(GenCheck):
     pid = "C02"
     props_file = "Props/C02.v"
@@ -89,7 +165,8 @@ class C02(GenCheck):
         return case
 
     def gen_cases(self):
-        return [self.make_case(self.rng) for _ in range(500 if self.tier == "quick" else 8000)]
+        n = 500 if self.tier == "quick" else 8000
+        return [self.make_case(self.rng) for _ in range(n)] + [py_case(self.rng) for _ in range(n // 12)]
 
     def corpus(self):
         mk = lambda e, dfmt="x": {"regs": [], "reginit": {}, "decls": [("v0", "local", "x"), ("d", "local", dfmt)], "values": {"v0": 100000, "d": 1}, "dest": "d", "expr": e}
@@ -105,9 +182,10 @@ class C02(GenCheck):
         return st
 
     def prepare(self, cases):
-        for c in cases:
+        gen = [c for c in cases if c.get("kind") != "py"]
+        for c in gen:
             c["decls"] = [tuple(d) for d in c["decls"]]
-        return self.execute(cases)
+        return self.execute(gen)
 
     # ---- kinds
     def fmt_of(self, case, name):
@@ -217,6 +295,9 @@ class C02(GenCheck):
     CMPN = {"==": "CEq", "!=": "CNe", "<": "CLt", "<=": "CLe", ">": "CGt", ">=": "CGe"}
 
     def model_term(self, case):
+        if case.get("kind") == "py":
+            # the representation of the exact decimal: drop true q = floor(100000 q)
+            return "(VL [" + "; ".join(f"VZ (drop true (({Fraction(d).numerator}) # {Fraction(d).denominator})%Q)" for d in case["decimals"]) + "])"
         if case["_built"].error is not None or case["_run"] is None or case["_run"][0] != [1]:
             return None
         if "cmp" in case:
@@ -228,12 +309,16 @@ class C02(GenCheck):
         return f"(run {self.cf(case, case['expr'])} {cbool(dfmt == 'x')} {cnat(dsl.fmt_size(dfmt))})"
 
     def model_value(self, case, o):
+        if case.get("kind") == "py":
+            return o["stored"]
         if "cmp" in case:
             return 1 if o["dest"] == 1 else 0
         dfmt = self.fmt_of(case, case["dest"])
         return o["dest"] % (1 << 8 * dsl.fmt_size(dfmt))
 
     def run_impl(self, case):
+        if case.get("kind") == "py":
+            return py_run(case)
         b = case["_built"]
         if b.error is not None:
             return Err(6, b.error)
@@ -248,6 +333,8 @@ class C02(GenCheck):
                 "others": {n: read_var(n, b, stack, amap) for n in b.layout if n != case["dest"]}}
 
     def holds(self, case, o):
+        if case.get("kind") == "py":
+            return py_holds(case, o)
         if isinstance(o, Err):
             if o.code == 6:
                 return True if ("no value" in o.what or "not enough registers" in o.what or "ZeroDivisionError" in o.what) else f"generator refused a well-typed statement: {o.what}"
@@ -316,11 +403,17 @@ class C02(GenCheck):
     def rule(self):
         return ("dest (x / q / Q / i / I) = tree of depth 1-3 over + - * / // % with x-format variables (scaled values incl. 29000, 99999, 10**9), integer "
                 "variables of all formats, x registers set from decimals, integer constants and float constants incl. 0.29, 0.57, 0.58, 1.15, 2.675, 4.35, "
-                "99999.99999, 0.00001; non-negative operand values (differences may be negative); checked when all scaled operands and intermediates fit")
+                "99999.99999, 0.00001; non-negative operand values (differences may be negative); checked when all scaled operands and intermediates fit; "
+                "a further twelfth of that number: 1-5 decimals (positive and negative, up to five fractional digits) assigned from Python to x-format array-map "
+                "or hash-map variables of a loaded program - the stored integer must be the exact scaled decimal")
 
     def distribution(self, cases, observed):
-        d = {"x_dest": 0, "float_consts": 0, "ops": {}, "build_errors": 0}
+        d = {"x_dest": 0, "float_consts": 0, "ops": {}, "build_errors": 0, "assigned_from_python": 0, "negative_from_python": 0}
         for c, o in zip(cases, observed):
+            if c.get("kind") == "py":
+                d["assigned_from_python"] += len(c["decimals"])
+                d["negative_from_python"] += sum(1 for x in c["decimals"] if x.startswith("-"))
+                continue
             d["x_dest"] += self.fmt_of(c, c["dest"]) == "x"
             d["build_errors"] += isinstance(o, Err)
             for l in exprs.leaves(c["expr"]):
